@@ -152,7 +152,8 @@ def stub_cases(tier):
             if s < 1e-4:
                 lens = SHORT
             elif s < 1e-3 and tier != 'thorough':
-                lens = long_[:1]
+                # quick: the short core, and for the plain 1/3 mm requirement also the long one (11 250 steps)
+                lens = long_ if (rname == '1/3mm' and ulab == 'none') else long_[:1]
             else:
                 lens = long_
             for lname, L in lens:
